@@ -269,3 +269,303 @@ class GhmPdfSym(Contract):
         cx.oblige("post.factor_j_is_declared_conditional_density", T.eq(fg((k, j)), pdf_spec(self.cond, self.x.getter(), k, j)), "post",
                   "conditioning value from the same row and the declared column, for every j < n_dim")
         cx.oblige("frame.pdf.x", self.x.buf.writes == 0, "frame")
+
+
+# ----------------------------------------------------------------------------------------------- integrals (C06)
+from vf.engine.values import Builtin, FuncVal, Opaque  # noqa: E402
+from vf.engine import arrays as A_  # noqa: E402
+
+
+def install_nquad(itp, rec):
+    def nquad(itp_, a, k):
+        func = a[0]
+        ranges = a[1] if len(a) > 1 else k.get("ranges")
+        args = k.get("args", a[2] if len(a) > 2 else None)
+        rec.append(dict(func=func, ranges=ranges, args=args))
+        itp_.cx.trusted.add("scipy.integrate.nquad(f, ranges, args) = iterated integral of f over ranges[j] for its j-th positional argument, extra args appended; returns (value, error)")
+        v = Sym(itp_.cx.sym(f"integral{len(rec)}", "real"))
+        return (v, Sym(itp_.cx.sym(f"abserr{len(rec)}", "real")))
+    itp.lib.table["scipy.integrate.nquad"] = Builtin("scipy.integrate.nquad", nquad)
+
+
+def probe_integrand(itp, me, func, n_args):
+    """call the recorded integrand with fresh symbolic arguments; return (args, the x handed to self.pdf)"""
+    cx = itp.cx
+    ts = [Sym(cx.fresh("t", "real")) for _ in range(n_args)]
+    me.pdf_calls.clear()
+    itp.call_value(func, ts, {})
+    return ts, (me.pdf_calls[-1] if me.pdf_calls else None)
+
+
+def _marg_cases(dims=(2, 3)):
+    out = []
+    for co in structures(dims):
+        for d in range(len(co)):
+            out.append(dict(co=co, dim=d))
+    return out
+
+
+class MargBase(Contract):
+    method = None
+
+    def iteration_inv(self, case):
+        """the loop over the evaluation points has no state to carry; the obligations about the quadrature call are
+        emitted at the end of the arbitrary iteration (when the call has been recorded)"""
+        me = self
+
+        def inv(itp_, env, kc):
+            if me.nquad and not itp_.scratch.get("iteration_checked"):
+                itp_.scratch["iteration_checked"] = True
+                me.check_iteration(itp_, case, env)
+            return [("trivial", True)]
+        return inv
+
+    def check_iteration(self, itp, case, env):
+        pass
+
+    def case_label(self, case):
+        return f"conditional_on={structure_label(case['co'])},dim={case['dim']}"
+
+    def setup(self, itp, case):
+        me = self
+        me.nquad = []
+        me.pdf_calls = []
+        install_nquad(itp, me.nquad)
+
+        def pdf(itp_, args, kwargs):
+            me.pdf_calls.append(args[1])
+            return Sym(itp_.cx.fresh("pdfval", "real"))
+        itp.summaries[GHM + ".pdf"] = pdf
+
+    def inputs(self, itp, case):
+        cx = itp.cx
+        self.model, self.dists = make_model(cx, case["co"])
+        self.m = cx.sym("m", "int")
+        cx.assume(T.ge(self.m, 1))
+        self.x = sym_array(cx, "x", (self.m,))
+        return [self.model, self.x, case["dim"]], {}
+
+
+@contract(GHM + ".marginal_pdf", ["C06"], _marg_cases(), name="ghm.marginal_pdf")
+class MargPdf(MargBase):
+    """unconditional variable: its own pdf; conditional variable: for every x_i the joint pdf integrated over
+    (0, inf) in EVERY other variable with variable `dim` held at x_i"""
+
+    def setup(self, itp, case):
+        super().setup(itp, case)
+        me = self
+
+        itp.loop_specs[(GHM + ".marginal_pdf", 0)] = LoopSpec(self.iteration_inv(case))
+
+    def post(self, itp, case, inp, out):
+        cx = itp.cx
+        co, dim = case["co"], case["dim"]
+        nd = len(co)
+        if co[dim] is None:
+            if out.outcome != "return":
+                cx.oblige("post.returns", False, "post", f"{out.exc}")
+                return
+            (k,) = fresh_index(cx, (self.m,))
+            cx.oblige("post.marginal_unconditional", T.eq(out.value.get((k,)), PDF(dim, self.x.get((k,)))) if isinstance(out.value, SArr) else False, "post",
+                      "an unconditional variable's marginal is its own distribution")
+            cx.oblige("post.no_quadrature", not self.nquad, "post")
+            return
+        cx.oblige("post.returns_vector", out.outcome == "return", "post")
+
+    def check_iteration(self, itp, case, env):
+        cx = itp.cx
+        co, dim = case["co"], case["dim"]
+        nd = len(co)
+        call = self.nquad[-1]
+        others = [j for j in range(nd) if j != dim]
+        rng = call["ranges"]
+        items = itp.iterate_concrete(rng) if rng is not None else None
+        cx.oblige("post.integrand.n_ranges", items is not None and len(items) == nd - 1, "post", "one integration range per OTHER variable")
+        if items is None or len(items) != nd - 1:
+            return
+        for j, r in enumerate(items):
+            cx.oblige(f"post.integrand.range{j}", isinstance(r, tuple) and len(r) == 2 and r[0] == 0 and isinstance(r[1], T.Inf) and r[1].sign > 0, "post", "range (0, inf)")
+        extra = call["args"]
+        ex = itp.iterate_concrete(extra) if extra is not None else []
+        cx.oblige("post.integrand.extra_arg", len(ex) == 1, "post", "the evaluation point x_i is passed as the extra argument")
+        ts, xarg = probe_integrand(itp, self, call["func"], nd)
+        ok = isinstance(xarg, SArr) and xarg.ndim == 2
+        cx.oblige("post.integrand.calls_pdf", ok, "post")
+        if not ok:
+            return
+        cx.oblige("post.integrand.row_shape", T.land(T.eq(xarg.shape[0], 1), T.eq(xarg.shape[1], nd)), "post")
+        # the nd-1 integration variables t_0..t_{nd-2} must land on nd-1 DISTINCT other coordinates, the extra arg on `dim`
+        cx.oblige("post.integrand.point_on_dim", T.eq(xarg.get((0, dim)), ts[nd - 1].t), "post", "the extra argument (x_i) is the value of variable `dim`")
+        hit = []
+        for j in range(nd - 1):
+            tgt = [c for c in others if cx.valid(T.eq(xarg.get((0, c)), ts[j].t))]
+            hit.append(tgt)
+        cx.oblige("post.integrand.other_variables", sorted(t[0] for t in hit if len(t) == 1) == others and all(len(t) == 1 for t in hit), "post",
+                  "every other variable is integrated exactly once (argument reordering is a bijection onto the other coordinates)")
+
+
+@contract(GHM + ".marginal_cdf", ["C06"], _marg_cases(), name="ghm.marginal_cdf")
+class MargCdf(MargBase):
+    """conditional variable: joint pdf integrated over (0, inf) in every other variable and over (0, x_i) in `dim`"""
+
+    def setup(self, itp, case):
+        super().setup(itp, case)
+        itp.loop_specs[(GHM + ".marginal_cdf", 0)] = LoopSpec(self.iteration_inv(case))
+
+    def post(self, itp, case, inp, out):
+        cx = itp.cx
+        co, dim = case["co"], case["dim"]
+        nd = len(co)
+        if co[dim] is None:
+            if out.outcome != "return":
+                cx.oblige("post.returns", False, "post", f"{out.exc}")
+                return
+            (k,) = fresh_index(cx, (self.m,))
+            cx.oblige("post.marginal_unconditional", T.eq(out.value.get((k,)), CDF(dim, self.x.get((k,)))) if isinstance(out.value, SArr) else False, "post")
+            return
+        cx.oblige("post.returns_vector", out.outcome == "return", "post")
+
+    def check_iteration(self, itp, case, env):
+        cx = itp.cx
+        co, dim = case["co"], case["dim"]
+        nd = len(co)
+        call = self.nquad[-1]
+        items = itp.iterate_concrete(call["ranges"]) if call["ranges"] is not None else None
+        cx.oblige("post.integrand.n_ranges", items is not None and len(items) == nd, "post", "one range per variable")
+        if items is None or len(items) != nd:
+            return
+        ts, xarg = probe_integrand(itp, self, call["func"], nd)
+        ok = isinstance(xarg, SArr) and xarg.ndim == 2
+        cx.oblige("post.integrand.calls_pdf", ok, "post")
+        if not ok:
+            return
+        # which coordinate does argument j feed, and is its range the right one?
+        seen = []
+        for j in range(nd):
+            tgt = [c for c in range(nd) if cx.valid(T.eq(xarg.get((0, c)), ts[j].t))]
+            cx.oblige(f"post.integrand.arg{j}_feeds_one_coordinate", len(tgt) == 1, "post")
+            if len(tgt) != 1:
+                continue
+            c = tgt[0]
+            seen.append(c)
+            r = items[j]
+            if c == dim:
+                okr = isinstance(r, tuple) and len(r) == 2 and r[0] == 0 and is_scalar(r[1]) and not isinstance(r[1], T.Inf)
+                cx.oblige(f"post.integrand.range_of_dim", okr, "post", "variable `dim` is integrated over (0, x_i)")
+            else:
+                cx.oblige(f"post.integrand.range_of_other.{c}", isinstance(r, tuple) and len(r) == 2 and r[0] == 0 and isinstance(r[1], T.Inf) and r[1].sign > 0, "post", "other variables over (0, inf)")
+        cx.oblige("post.integrand.bijection", sorted(seen) == list(range(nd)), "post")
+
+
+@contract(J + "MultivariateModel.cdf", ["C06", "C18", "C19"], [dict(co=co) for co in structures((2, 3))] + [dict(co=[None, 0], nonfinite=True)], name="ghm.cdf")
+class GhmCdf(MargBase):
+    """cdf(x)[i] = integral of the joint pdf over (0, x[i, j]) in variable j, for every j (lower-left orthant);
+    non-finite points are rejected; the caller's array is not written"""
+
+    def case_label(self, case):
+        return f"conditional_on={structure_label(case['co'])}" + (",nonfinite" if case.get("nonfinite") else "")
+
+    def setup(self, itp, case):
+        super().setup(itp, case)
+        itp.loop_specs[(J + "MultivariateModel.cdf", 0)] = LoopSpec(self.iteration_inv(case))
+
+    def inputs(self, itp, case):
+        cx = itp.cx
+        nd = len(case["co"])
+        self.model, self.dists = make_model(cx, case["co"])
+        self.m = cx.sym("m", "int")
+        cx.assume(T.ge(self.m, 1))
+        self.x = sym_array(cx, "x", (self.m, nd))
+        if case.get("nonfinite"):
+            self.x.buf.nonfinite = True
+        return [self.model, self.x], {}
+
+    def post(self, itp, case, inp, out):
+        cx = itp.cx
+        nd = len(case["co"])
+        if case.get("nonfinite"):
+            cx.oblige("raises.ValueError.nonfinite", out.outcome == "raise" and out.exc == "ValueError", "raises")
+            return
+        cx.oblige("frame.cdf.x", self.x.buf.writes == 0, "frame", "the caller's array is not written")
+        cx.oblige("post.returns_vector", out.outcome == "return" and isinstance(out.value, SArr) and out.value.ndim == 1, "post")
+
+    def check_iteration(self, itp, case, env):
+        cx = itp.cx
+        nd = len(case["co"])
+        call = self.nquad[-1]
+        items = itp.iterate_concrete(call["ranges"]) if call["ranges"] is not None else None
+        cx.oblige("post.integrand.n_ranges", items is not None and len(items) == nd, "post")
+        if items is None or len(items) != nd:
+            return
+        ts, xarg = probe_integrand(itp, self, call["func"], nd)
+        ok = isinstance(xarg, SArr) and xarg.ndim == 2
+        cx.oblige("post.integrand.calls_pdf", ok, "post")
+        if not ok:
+            return
+        i = term_of(env.lookup("i"))
+        xin = env.lookup("x")
+        for j in range(nd):
+            cx.oblige(f"post.integrand.arg{j}_is_coordinate{j}", T.eq(xarg.get((0, j)), ts[j].t), "post", "argument j is variable j")
+            r = items[j]
+            okr = isinstance(r, tuple) and len(r) == 2 and r[0] == 0 and is_scalar(r[1])
+            cx.oblige(f"post.integrand.range{j}", T.eq(term_of(r[1]), self.x.get((i, j))) if okr else False, "post", "variable j is integrated over (0, x[i, j])")
+
+
+@contract(GHM + ".marginal_icdf", ["C06"], _marg_cases(), name="ghm.marginal_icdf")
+class MargIcdf(Contract):
+    """unconditional variable: its own icdf (exact); conditional variable: the empirical p-quantile of column `dim`
+    of a fresh sample of n = max(int(100 precision_factor / min(p_min, 1 - p_max)), 100000) points"""
+
+    def case_label(self, case):
+        return f"conditional_on={structure_label(case['co'])},dim={case['dim']}"
+
+    def setup(self, itp, case):
+        me = self
+        me.draws = []
+
+        def draw(itp_, args, kwargs):
+            n = term_of(args[1])
+            s = sym_array(itp_.cx, "mc_sample", (n, len(case["co"])), owner="call")
+            me.draws.append((n, s, dict(kwargs)))
+            return s
+        itp.summaries[GHM + ".draw_sample"] = draw
+
+    def inputs(self, itp, case):
+        cx = itp.cx
+        self.model, self.dists = make_model(cx, case["co"])
+        self.m = cx.sym("m", "int")
+        cx.assume(T.ge(self.m, 1))
+        self.p = sym_array(cx, "p", (self.m,))
+        q = z3.Int("pq")
+        cx.assume(z3.ForAll([q], z3.Implies(z3.And(q >= 0, q < self.m), z3.And(self.p.uf(q) > 0, self.p.uf(q) < 1)), patterns=[self.p.uf(q)]), "0 < p < 1")
+        self.pf = real(cx, "precision_factor")
+        cx.assume(T.gt(self.pf.t, 0))
+        return [self.model, self.p, case["dim"]], {"precision_factor": self.pf}
+
+    def post(self, itp, case, inp, out):
+        cx = itp.cx
+        co, dim = case["co"], case["dim"]
+        if out.outcome != "return":
+            cx.oblige("post.returns", False, "post", f"raised {out.exc}: {out.msg}")
+            return
+        r = out.value
+        (k,) = fresh_index(cx, (self.m,))
+        if co[dim] is None:
+            cx.oblige("post.marginal_unconditional", T.eq(r.get((k,)), ICDF(dim, self.p.get((k,)))) if isinstance(r, SArr) else False, "post", "exact quantile of the variable's own distribution")
+            cx.oblige("post.no_sampling", not self.draws, "post")
+            return
+        cx.oblige("frame.marginal_icdf", not self.model.writes, "frame", f"evaluation writes no attribute of the model (wrote {self.model.writes}): no state that could go stale")
+        ok = len(self.draws) == 1
+        cx.oblige("post.marginal_icdf_mc.one_sample", ok, "post", "a fresh sample is drawn for this call")
+        if not ok:
+            return
+        n, sample, _ = self.draws[0]
+        pmin = term_of(itp.lib.table["numpy.min"].fn(itp, [self.p], {}))
+        pmax = term_of(itp.lib.table["numpy.max"].fn(itp, [self.p], {}))
+        small = T.ite(T.lt(T.sub(1, pmax), pmin), T.sub(1, pmax), pmin)
+        raw = T.mul(T.div(1, small), T.mul(100, self.pf.t))
+        nz = T.zr(n)
+        cx.oblige("post.marginal_icdf_mc.n", z3.And(T.zi(n) >= 100000, z3.Or(T.zi(n) == 100000, z3.And(nz <= T.zr(raw), nz + 1 > T.zr(raw))), z3.Implies(T.zr(raw) >= 100001, nz > 100000)), "post",
+                  "n = max(int(100 precision_factor / min(p_min, 1 - p_max)), 100000)")
+        want = itp.lib.quantile_term(cx, n, lambda idx: sample.get((idx[0], dim)), self.p.get((k,)))
+        cx.oblige("post.marginal_icdf_mc.quantile_of_column_dim", T.eq(r.get((k,)), want) if isinstance(r, SArr) else False, "post", "empirical quantile of the sampled column of variable `dim`")
